@@ -13,6 +13,7 @@ LEVEL = "exploration"
 TECHNIQUE = ("deterministic simulation (fault-free pipeline): stratified seeded sampling of the serializer configuration lattice; oracle 'acknowledged => durable': call returned => all statements in the written bytes (reference decoder + pyjelly), flow empty")
 LEVEL_NOTE = ('sampling of a finite lattice x inputs; visited lattice points reported')
 OPTIMIZED_EVERY = 25      # every 25th run is executed in a child interpreter started with python -O
+PBPY_EVERY = 50           # every 50th run (offset 6) is executed with protobuf's pure-Python backend
 COMPILED_EVERY = 25       # every 25th run (offset 12) is executed in a child that imports a mypyc build of the tree
 RUNS = {"quick": 80000, "thorough": 1500000}
 RULE = ("stratified seeded sampling of the configuration lattice {TripleStream,QuadStream,GraphStream} x 8 logical "
